@@ -12,8 +12,9 @@ from vlib.core import Family
 from vlib import molgen, ringast, ringref, schemeref
 
 PROPERTY = 'C08'
-RULE = ('fragments of 1-5 atoms from the RING grammar (every symbol class but lower-case, prefix but allylic, suffix but *, '
-        'bond kind, constraint form, comparison operator, negation, molecule prefix; random layout and label names incl. '
+RULE = ('fragments of 1-5 atoms from the RING grammar (every symbol class incl. lower-case aromatic symbols, prefix but allylic, suffix but *, '
+        'bond kind, constraint form, comparison operator, negation, molecule prefix, the stereo double bond clause on alkenes with and without '
+        'cis/trans marks; random layout and label names incl. '
         'keyword-like labels), half of them abstracted from a connected sub-graph of the molecule and then perturbed in '
         'one feature, x molecules (gas, aromatic, radical, charged, Pt/Ru adsorbate families) in two states: as RDKit '
         'reads them and in the scheme-normalised state (explicit H, Kekule, Benson aromatic rings, weak bonds); bounded '
@@ -21,7 +22,7 @@ RULE = ('fragments of 1-5 atoms from the RING grammar (every symbol class but lo
         'of a fixed small pool. Non-trivial = the reference set is non-empty, or the fragment minus one constraint / with '
         'one bond relaxed matches. Distinct = distinct (fragment text, molecule, state).')
 ASSUMPTIONS = ['RDKit SMILES reading, ring perception (RingInfo), aromaticity flags and stereo perception are trusted',
-               "'*' suffix, 'allylic' prefix and lower-case symbols are unspecified/own class and not generated here",
+               "'*' suffix and 'allylic' prefix are unspecified and not generated",
                'molecules only contain Pt/Ru as metals and no non-metal with Z > 19, so "M" is unambiguous',
                'total embeddings < 10000 (the code caps RDKit matches there)']
 
@@ -82,7 +83,31 @@ def pair_case(draw):
                 relabel=draw(ringast.labels(len(ast['atoms']))), smiles=smi, state=state, directed=directed)
 
 
+@st.composite
+def stereo_case(draw):
+    """a four-atom pattern a-c=d-b with a stereo clause, on alkenes with and without cis/trans marks"""
+    smi = draw(st.one_of(molgen.alkene(), st.sampled_from(['C/C=C\\C', 'C/C=C/C', 'CC=CC', 'C/C=C\\CO', 'F/C=C/F', 'C/C=C(/C)CC', 'CC=C(C)C', 'C/C=C\\C=C',
+                                                           'C1CCC=CC1', 'C/C=C/C=C/C', 'OC/C=C\\CO'])))
+    labs = draw(ringast.labels(4))
+    sub = lambda: draw(st.sampled_from(['C', 'C', '$', 'H', 'X', 'O']))
+    atoms = [dict(prefix=None, symbol='C', suffix='?', label=labs[0], constraints=[]),
+             dict(prefix=None, symbol='C', suffix='?', label=labs[1], constraints=[]),
+             dict(prefix=None, symbol=sub(), suffix='?', label=labs[2], constraints=[]),
+             dict(prefix=None, symbol=sub(), suffix='?', label=labs[3], constraints=[])]
+    tree = [[1, 0, 'double'], [2, 0, draw(st.sampled_from(['single', 'any', 'nonring']))], [3, 1, draw(st.sampled_from(['single', 'any']))]]
+    a, b = (2, 3) if draw(st.booleans()) else (3, 2)
+    c, d = (0, 1) if draw(st.booleans()) else (1, 0)
+    stereo = [[a, b, c, d, draw(st.booleans()), draw(st.sampled_from(['cis', 'trans', 'notspecified']))]]
+    if draw(st.integers(0, 4)) == 0:
+        stereo.append([a, b, c, d, draw(st.booleans()), draw(st.sampled_from(['cis', 'trans', 'notspecified']))])
+    ast = dict(molprefix=[], name='st', atoms=atoms, tree=tree, ringbonds=[], stereo=stereo)
+    return dict(kind='pair', ast=ast, layout=draw(ringast.layout()), layout2=draw(ringast.layout()), relabel=draw(ringast.labels(4)),
+                smiles=smi, state=draw(st.sampled_from(['as-read', 'normalised'])), directed=True)
+
+
 def feature_events(ctx, ast):
+    for sc in ast.get('stereo') or []:
+        ctx.event('stereo:%s%s' % ('!' if sc[4] else '', sc[5]))
     for a in ast['atoms']:
         ctx.event('symbol:%s' % a['symbol'])
         if a.get('prefix'):
@@ -225,5 +250,6 @@ def check_any(ctx, case):
 
 FAMILIES = [
     Family('pairs', check_any, strategy=lambda tier: pair_case(), n=(8000, 300000)),
+    Family('stereo', check_any, strategy=lambda tier: stereo_case(), n=(1500, 60000)),
     Family('bounded-exhaustive', check_any, enumerate=enum_small, stride=(25, 1)),
 ]
